@@ -35,6 +35,10 @@ CASES = {
     'top': Q(items=[fa(1)], top=1),
     'minmax': Q(items=[agg('MIN', 'a1', lambda e: e.a(1), 'min'), agg('MAX', 'a2', A2, 'max'), Item('max(a1, a2)', lambda e: max(e.a(1), e.a(2)))], group=[('max(a1, a2)', lambda e: max(e.a(1), e.a(2)))]),
     'join': Q(items=[fa(1), fb(2)], join=join('JOIN')),
+    'named': Q(items=[attr('v'), sub('k'), NR], where=("a.v != 1", lambda e: e.an('v') != 1), ha=['k', 'v']),
+    'named-swapped': Q(items=[attr('v'), sub('k'), NR], where=("a.v != 1", lambda e: e.an('v') != 1), ha=['v', 'k']),
+    'named-update': Q(update=[('a.v', 1, 'a.k', lambda e: e.an('k'))], ha=['k', 'v']),
+    'named-update-swapped': Q(update=[('a.v', 0, 'a.k', lambda e: e.an('k'))], ha=['v', 'k']),
 }
 TEXT = {k: rel.render(v) for k, v in CASES.items()}
 
@@ -73,29 +77,37 @@ def scenario(i, T):
         rbql_engine.set_debug_mode(False)
     elif i == 9:
         qh.run_rbql('select unnest([1, 2]), unnest([3])', qh.copy_table(T))  # double UNNEST error
+    elif i == 10:
+        run('named-swapped', T)       # the SAME query text as probe `named`, over a header with the columns in another order
+    elif i == 11:
+        run('named-update-swapped', T)
+    elif i == 12:
+        qh.run_rbql(P.TEXT['named'], [[1, 'x'], [2, 'y']], None, ['v', 'k'])   # same text again, failing at run time (str != int is fine, 'x' has no ...)
+        qh.run_rbql('select a.v // 0, a["k"]', qh.copy_table(T), None, ['v', 'k'])
 '''
 
 
-def _history_obl(probe, rows, timeout, nsel=3, first=None):
+def _history_obl(probe, rows, timeout, nsel=3, first=None, probe_first=True):
     pa, pb, po, texpr = qh.table_params('a', ['kk'] * (rows - 1), krange=3)
     texpr = texpr[:-1] + (', ' if rows > 1 else '') + '[1, 0]]'
     sels = [('h%d' % i, 'int') for i in range(nsel)]
     body = indent('''
 T = %s
 B = [[0, 7], [1, 8], [1, 9]] if PROBE == 'join' else None
-g0, e0 = run(PROBE, T, B)
+# PROBE_FIRST: [probe, history, probe] ; otherwise [history, probe] (the history is then the very first use of the engine in this interpreter)
+g0, e0 = run(PROBE, T, B) if PROBE_FIRST else (None, None)
 HT = [[1, 2], [0, 2], [1, 0]]     # history queries run on a fixed table: only their effect on interpreter state matters
 for h in [%s]:
     scenario(h, HT)
 g1, e1 = run(PROBE, T, B)
 return ((g0, g1), (e0, e1))
 ''' % (texpr, ', '.join(n for n, _t in sels)))
-    selpre = ['0 <= %s <= 9' % n for n, _t in sels]
+    selpre = ['0 <= %s <= 12' % n for n, _t in sels]
     if first is not None:
         selpre[0] = 'h0 == %d' % first
-    src = harness('PROBE = %r\n' % probe, sels + pa, selpre + pb + po, body, extra_defs=HIST_SRC)
-    return Obl('history[probe=%s,rows=%d,len=%d%s]' % (probe, rows, nsel, (',first=%d' % first) if first is not None else ''), src, timeout=timeout,
-               meta={'query': TEXT[probe], 'bounds': 'every history of %d steps over 9 scenarios (+ nothing) x every %d-row table of ints 0..2' % (nsel, rows)})
+    src = harness('PROBE = %r\nPROBE_FIRST = %r\n' % (probe, probe_first), sels + pa, selpre + pb + po, body, extra_defs=HIST_SRC)
+    return Obl('history[probe=%s,rows=%d,len=%d%s%s]' % (probe, rows, nsel, (',first=%d' % first) if first is not None else '', '' if probe_first else ',history-first'), src, timeout=timeout,
+               meta={'query': TEXT[probe], 'bounds': 'every history of %d steps over 12 scenarios (+ nothing) x every %d-row table of ints 0..2' % (nsel, rows)})
 
 
 SCHED_SRC = HIST_SRC + '''
@@ -188,13 +200,20 @@ def obligations(tier, seed):
     quick = tier == 'quick'
     t = 200 if quick else 1200
     probes = ['agg', 'unnest', 'like', 'dcount', 'divide', 'minmax', 'top', 'join'] if quick else list(CASES)
+    probes = probes + ['named', 'named-update']
     for pi, p in enumerate(probes):
-        for first in range(1, 10):
-            if quick and (first + pi + seed) % 3 != 0:
+        for first in range(1, 13):
+            if p.startswith('named') and first not in (10, 11, 12, 1, 7):
                 continue
-            obs.append(_history_obl(p, 2, t, nsel=2, first=first))
+            if not p.startswith('named') and first > 9 and quick:
+                continue
+            if quick and (first + pi + seed) % 3 != 0 and not p.startswith('named'):
+                continue
+            pf = not p.startswith('named') and (first + pi) % 2 == 0
+            obs.append(_history_obl(p, 2, t, nsel=2, first=first, probe_first=pf))
             if not quick:
-                obs.append(_history_obl(p, 3, t, nsel=3, first=first))
+                obs.append(_history_obl(p, 2, t, nsel=2, first=first, probe_first=not pf))
+                obs.append(_history_obl(p, 3, t, nsel=3, first=first, probe_first=pf))
     kinds = ['agg', 'unnest', 'like', 'dcount', 'sorted', 'update', 'divide', 'top', 'minmax']
     pairs = []
     for i, a in enumerate(kinds):
